@@ -8,7 +8,10 @@ import (
 	"os"
 	"runtime/debug"
 	"sort"
+	"strconv"
+	"sync/atomic"
 	"testing"
+	"time"
 )
 
 // workerCfg is passed in the environment variable VERIF_WORKER as JSON.
@@ -23,6 +26,7 @@ type workerCfg struct {
 	Out     string   `json:"out"`     // prefix for hash-set files
 	Trace   string   `json:"trace"`   // replay: trace file
 	ShowLog bool     `json:"showlog"` // replay: print the event log
+	Repeat  int      `json:"repeat"`  // replay: execute the trace up to this many times (free-running engines)
 	HashLog string   `json:"hashlog"` // range: write "run loghash" lines (determinism self-test)
 	Files   []string `json:"files"`   // merge
 	Samples int      `json:"samples"`
@@ -88,12 +92,48 @@ func trimStack(b []byte) string {
 	return string(b)
 }
 
+// watchdog: the run that is executing and when it started (real clock). A
+// run that does not finish is reported on stderr and ends the process with
+// status 4, so that one hung run cannot stall a whole batch.
+var (
+	wdRun   atomic.Int64
+	wdSince atomic.Int64 // tick at which the current run started, 0 = idle
+	wdTicks atomic.Int64 // advanced by the watchdog itself: it must not read time.Local (the harness assigns it)
+)
+
+func wdBegin(run int) {
+	wdRun.Store(int64(run))
+	wdSince.Store(wdTicks.Load() + 1)
+}
+
+func startWatchdog() {
+	limit := int64(120)
+	if v := os.Getenv("VERIF_RUN_TIMEOUT_S"); v != "" {
+		if n, err := strconv.Atoi(v); err == nil && n > 0 {
+			limit = int64(n)
+		}
+	}
+	wdSince.Store(0)
+	go func() {
+		for {
+			time.Sleep(500 * time.Millisecond)
+			now := wdTicks.Add(1)
+			since := wdSince.Load()
+			if since != 0 && (now-since)/2 > limit {
+				fmt.Fprintf(os.Stderr, "HANG run=%d did not finish within %ds\n", wdRun.Load(), limit)
+				os.Exit(4)
+			}
+		}
+	}()
+}
+
 func TestWorker(t *testing.T) {
 	raw := os.Getenv("VERIF_WORKER")
 	if raw == "" {
 		t.Skip("VERIF_WORKER not set")
 	}
 	planT = t
+	startWatchdog()
 	var c workerCfg
 	if err := json.Unmarshal([]byte(raw), &c); err != nil {
 		fmt.Fprintf(os.Stderr, "HARNESS-ERROR bad VERIF_WORKER: %v\n", err)
@@ -145,8 +185,25 @@ func workerReplay(t *testing.T, e Engine, c workerCfg) {
 			f.Close()
 		}
 	}
+	// warm-up: runs of the same batch executed first in this process. A library that keeps
+	// process-global state can make a run depend on the runs before it.
+	for _, w := range tr.Warmup {
+		wt := e.Gen(tr.Seed, tr.Tier, w)
+		wx := newX(t, false)
+		wdBegin(w)
+		execGuard(e, wt, wx)
+		wdSince.Store(0)
+	}
 	x := newX(t, c.ShowLog)
-	execGuard(e, &tr, x)
+	for i := 0; i < max(1, c.Repeat); i++ {
+		x = newX(t, c.ShowLog)
+		wdBegin(tr.Run)
+		execGuard(e, &tr, x)
+		wdSince.Store(0)
+		if x.Viol != nil {
+			break
+		}
+	}
 	out := map[string]any{"t": "replay", "violation": x.Viol, "loghash": x.LogHash(), "nontrivial": x.Nontriv,
 		"faults": x.Faults, "probes": x.Probes, "steps": x.Steps}
 	if c.ShowLog {
@@ -213,6 +270,7 @@ func workerRange(t *testing.T, e Engine, c workerCfg) {
 			binary.LittleEndian.PutUint64(w[:], uint64(run))
 			wal.WriteAt(w[:], 0)
 		}
+		wdBegin(run)
 		tr := e.Gen(c.Seed, c.Tier, run)
 		x := newX(t, false)
 		execGuard(e, tr, x)
@@ -265,6 +323,7 @@ func workerRange(t *testing.T, e Engine, c workerCfg) {
 			emit(violLine{T: "violation", Run: run, Viol: x.Viol, Trace: tr, LogSHA: lh})
 		}
 	}
+	wdSince.Store(0)
 	if c.Out != "" {
 		for _, p := range []struct {
 			n string
